@@ -593,7 +593,13 @@ impl<'a, T: std::fmt::Debug> WaitingState<'a, T> {
         // pressed, activate a tap-dance action.
         match queued.iter().try_fold(1, |same_tap_count, s| {
             if self.is_corresponding_press(&s.event) {
-                Ok(same_tap_count + 1)
+                if usize::from(same_tap_count) >= max_taps {
+                    // The list of actions is exhausted: further queued taps belong to the
+                    // next tap-dance and must not be merged into (and evicted with) this one.
+                    Err((same_tap_count, ()))
+                } else {
+                    Ok(same_tap_count + 1)
+                }
             } else if matches!(s.event, Event::Press(..)) {
                 Err((same_tap_count, ()))
             } else {
